@@ -6,6 +6,7 @@ package main
 
 import (
 	"encoding/json"
+	"sort"
 	"fmt"
 	"math"
 	"math/big"
@@ -854,6 +855,54 @@ func (g *gen) structuredCase(k, size int) (string, any) {
 		}
 		return g.wrap(f), in
 	}
+	case 13: // deletions that FAIL after earlier paths were already marked: the error message previews a value
+		// that contains the internal deletion marker
+		in := g.delInput(size)
+		paths := realPaths(in, nil, 60)
+		var ps [][]any
+		for n := 1 + g.r.Intn(3); n > 0 && len(paths) > 0; n-- {
+			ps = append(ps, paths[g.r.Intn(len(paths))])
+		}
+		// one or two failing paths built from a real one: wrong key type on a sibling or on the marked container,
+		// index into the marked element, slice of an object, key into an array
+		for n := 1 + g.r.Intn(2); n > 0 && len(paths) > 0; n-- {
+			base := append([]any(nil), paths[g.r.Intn(len(paths))]...)
+			bad := []any{"a", 0, -1, map[string]any{"start": 0, "end": 1}, nil, 1.5, "", true, []any{0}, 1000000, map[string]any{"start": "x"}}[g.r.Intn(11)]
+			switch g.r.Intn(4) {
+			case 0:
+				if len(base) > 0 {
+					base[len(base)-1] = bad
+				} else {
+					base = []any{bad}
+				}
+			case 1:
+				base = append(base, bad)
+			case 2:
+				if len(base) > 1 {
+					base = append(base[:len(base)-1:len(base)-1], bad, base[len(base)-1])
+				} else {
+					base = append(base, bad)
+				}
+			default:
+				base = append(base, 0, bad)
+			}
+			ps = append(ps, base)
+		}
+		g.shufflePaths(ps)
+		lits := make([]string, len(ps))
+		exprs := make([]string, len(ps))
+		for i, q := range ps {
+			lits[i] = g.jsonLit(q)
+			exprs[i] = pathExprOf(g, q)
+		}
+		pl := "[" + strings.Join(lits, ",") + "]"
+		pe := strings.Join(exprs, ", ")
+		f := g.pick([]string{"try delpaths(" + pl + ") catch .", "delpaths(" + pl + ")", "try del(" + pe + ") catch .", "del(" + pe + ")", "try ((" + pe + ") |= empty) catch .", "(" + pe + ") |= empty",
+			"try delpaths(" + pl + ") catch (. | length)", "[.[]? | try delpaths(" + pl + ") catch .]", "try (delpaths(" + pl + ") | tojson) catch tojson", "try del(" + pe + ") catch ascii_downcase",
+			"try delpaths($a) catch .", "try (reduce " + pl + "[] as $p (.; delpaths([$p]))) catch .", "try ((" + pe + ") |= (empty, 1)) catch .", "try (del(" + pe + ") | del(" + pe + ")) catch .",
+			"try (to_entries | delpaths(" + pl + ")) catch .", "try (path(" + pe + ")) catch .", "try ((" + pe + ") = empty) catch .", "try (delpaths(" + pl + "), delpaths(" + pl + ")) catch ."})
+		return f, in
+	}
 	// 11: every builtin applied to a numeric array of the given size, and with it as each argument
 	b := g.builtins[g.r.Intn(len(g.builtins))]
 	args := make([]string, b.arity)
@@ -875,7 +924,7 @@ func (g *gen) structuredCase(k, size int) (string, any) {
 // a small regex grammar over the alphabet {a, b, c, á, é, .}: alternations of groups under * + {n},
 // nested groups, optional groups that do not participate, empty-matching groups, named and unnamed mixed
 
-const nFamilies = 13
+const nFamilies = 14
 
 var groupRegexes = []string{"(?:(a)|(b))*", "((a)|(b))+", "(a|(b))*(c)?", "(?:(?<x>a)|(?<y>b))*", "((?<x>a)|(b))*", "(b)|(a)", "(?:(b)|(a))+", "((a*)|(b))*", "(a)?(b)?(a)?", "(?:(á)|(b))*", "(?:(a)|(é))+",
 	"(()|a)+", "(a|())*b", "((a)|(b)|(c)){2}", "(?:(a)|(b)){1,3}", "(?<x>(?<y>b)|a)*", "(?:a(b)?|(c))*", "((?:(a)|b)+)", "(?:(?:(a))|(?:(b)))*", "(a)*(b)*(a)*", "(?:(a)(b)?)*", "(?:(b)(?:(a)|c))*", "(.)(?:(a)|(b))*\\b?"}
@@ -934,6 +983,104 @@ func (g *gen) subject() string {
 	var sb strings.Builder
 	for i := 0; i < n; i++ {
 		sb.WriteString(g.pick([]string{"a", "b", "c", "á", "é", "a", "b", " "}))
+	}
+	return sb.String()
+}
+
+
+// inputs for the deletion family: nested containers, some with long scalars so that the 30-byte preview cut
+// falls at different places relative to a marked element
+func (g *gen) delInput(size int) any {
+	leaf := func() any {
+		return []any{1, 2, "x", nil, true, strings.Repeat("y", g.r.Intn(30)), 123456789012, []any{}, map[string]any{}}[g.r.Intn(9)]
+	}
+	var mk func(d int) any
+	mk = func(d int) any {
+		if d <= 0 || g.r.Chance(1, 4) {
+			return leaf()
+		}
+		if g.r.Chance(1, 2) {
+			n := 1 + g.r.Intn(3+size%4)
+			xs := make([]any, n)
+			for i := range xs {
+				xs[i] = mk(d - 1)
+			}
+			return xs
+		}
+		m := map[string]any{}
+		for _, k := range []string{"a", "b", "c", "key with a long name 0123456789"}[:1+g.r.Intn(4)] {
+			m[k] = mk(d - 1)
+		}
+		return m
+	}
+	switch g.r.Intn(6) {
+	case 0:
+		return []any{[]any{1, 2}}
+	case 1:
+		return map[string]any{"a": []any{1, 2}, "b": map[string]any{"c": 1}}
+	case 2:
+		return []any{[]any{1, 2}, []any{3, 4}, map[string]any{"a": []any{5}}}
+	}
+	return mk(2 + g.r.Intn(2))
+}
+
+func realPaths(v any, prefix []any, limit int) [][]any {
+	var out [][]any
+	var walk func(v any, p []any)
+	walk = func(v any, p []any) {
+		if len(out) >= limit {
+			return
+		}
+		if len(p) > 0 {
+			out = append(out, append([]any(nil), p...))
+		}
+		switch v := v.(type) {
+		case []any:
+			for i, x := range v {
+				walk(x, append(p, i))
+			}
+		case map[string]any:
+			keys := make([]string, 0, len(v))
+			for k := range v {
+				keys = append(keys, k)
+			}
+			sort.Strings(keys)
+			for _, k := range keys {
+				walk(v[k], append(p, k))
+			}
+		}
+	}
+	walk(v, prefix)
+	return out
+}
+
+func (g *gen) shufflePaths(ps [][]any) {
+	for i := len(ps) - 1; i > 0; i-- {
+		j := g.r.Intn(i + 1)
+		ps[i], ps[j] = ps[j], ps[i]
+	}
+}
+
+// a path as a jq path expression: .[0]["a"][1:2]
+func pathExprOf(g *gen, p []any) string {
+	if len(p) == 0 {
+		return "."
+	}
+	var sb strings.Builder
+	sb.WriteString(".")
+	for _, e := range p {
+		if m, ok := e.(map[string]any); ok {
+			st, en := "", ""
+			if x, ok := m["start"]; ok {
+				st = g.jsonLit(x)
+			}
+			if x, ok := m["end"]; ok {
+				en = g.jsonLit(x)
+			}
+			sb.WriteString("[" + st + ":" + en + "]")
+			continue
+		}
+		sb.WriteString("[" + g.jsonLit(e) + "]")
 	}
 	return sb.String()
 }
